@@ -1,48 +1,34 @@
-// Minimal single-threaded executor + in-memory device for storage harnesses.
-// `block_on` polls with a no-op waker; a future that is still Pending after `max_polls` polls fails the harness
-// ("Pending with no runnable task" = would hang).
+include!("/verif/harness/common/exec_min.rs");
 
-pub fn noop_waker() -> std::task::Waker {
-    use std::task::{RawWaker, RawWakerVTable, Waker};
-    fn clone(_: *const ()) -> RawWaker {
-        RawWaker::new(std::ptr::null(), &VTABLE)
-    }
-    fn noop(_: *const ()) {}
-    static VTABLE: RawWakerVTable = RawWakerVTable::new(clone, noop, noop, noop);
-    unsafe { Waker::from_raw(RawWaker::new(std::ptr::null(), &VTABLE)) }
-}
-
-pub fn block_on<F: std::future::Future>(fut: F, max_polls: usize) -> F::Output {
-    let mut fut = std::pin::pin!(fut);
-    let waker = noop_waker();
-    let mut cx = std::task::Context::from_waker(&waker);
-    let mut i = 0;
-    while i < max_polls {
-        if let std::task::Poll::Ready(v) = fut.as_mut().poll(&mut cx) {
-            return v;
-        }
-        i += 1;
-    }
-    panic!("harness executor: future still Pending (would hang)");
-}
-
-/// In-memory device: `NP` pages of 4 KiB, split into partitions by the harness.
-pub struct MemDev<const BYTES: usize> {
-    pub mem: std::cell::UnsafeCell<[u8; BYTES]>,
+/// In-memory device: `NP` pages of 4 KiB, each its own array (so that CBMC keeps them field-sensitive and zero pages
+/// constant-fold), split into partitions by the harness.
+pub const HPAGE: usize = 4096;
+pub struct MemDev<const NP: usize> {
+    pub pages: [std::cell::UnsafeCell<[u8; HPAGE]>; NP],
     pub writes: std::cell::Cell<usize>,
 }
-unsafe impl<const BYTES: usize> Send for MemDev<BYTES> {}
-unsafe impl<const BYTES: usize> Sync for MemDev<BYTES> {}
-impl<const BYTES: usize> std::fmt::Debug for MemDev<BYTES> {
+unsafe impl<const NP: usize> Send for MemDev<NP> {}
+unsafe impl<const NP: usize> Sync for MemDev<NP> {}
+impl<const NP: usize> std::fmt::Debug for MemDev<NP> {
     fn fmt(&self, _f: &mut std::fmt::Formatter<'_>) -> std::fmt::Result {
         Ok(())
+    }
+}
+impl<const NP: usize> MemDev<NP> {
+    pub fn zeroed() -> Self {
+        Self { pages: std::array::from_fn(|_| std::cell::UnsafeCell::new([0u8; HPAGE])), writes: std::cell::Cell::new(0) }
+    }
+    #[allow(clippy::mut_from_ref)]
+    pub fn page(&self, i: usize) -> &mut [u8; HPAGE] {
+        unsafe { &mut *self.pages[i].get() }
     }
 }
 
 #[derive(Debug)]
 pub struct MemPartition {
     pub id: u32,
-    pub base: usize,
+    /// first device page of the partition
+    pub base_page: usize,
     pub size: usize,
 }
 impl crate::io::device::Partition for MemPartition {
@@ -60,26 +46,43 @@ impl crate::io::device::Partition for MemPartition {
     }
 }
 
-/// IoEngine over a MemDev. Partition bases are looked up by partition id (ids 0..4).
+/// IoEngine over a MemDev. Partition base pages are looked up by partition id (ids 0..4). Reads and writes are
+/// page-aligned and whole pages (what the tombstone log and the scanner issue); anything else fails the harness.
 #[derive(Debug)]
-pub struct MemIo<const BYTES: usize> {
-    pub dev: std::sync::Arc<MemDev<BYTES>>,
-    pub bases: [usize; 4],
+pub struct MemIo<const NP: usize> {
+    pub dev: std::sync::Arc<MemDev<NP>>,
+    pub base_pages: [usize; 4],
+    /// if set, the n-th read (0-based) returns an I/O error instead of data
+    pub fail_read_at: Option<usize>,
+    pub reads: std::cell::Cell<usize>,
 }
-impl<const BYTES: usize> crate::io::engine::IoEngine for MemIo<BYTES> {
+unsafe impl<const NP: usize> Send for MemIo<NP> {}
+unsafe impl<const NP: usize> Sync for MemIo<NP> {}
+impl<const NP: usize> crate::io::engine::IoEngine for MemIo<NP> {
     fn read(
         &self,
         mut buf: Box<dyn crate::io::bytes::IoBufMut>,
         partition: &dyn crate::io::device::Partition,
         offset: u64,
     ) -> crate::io::engine::IoHandle {
-        let base = self.bases[partition.id() as usize] + offset as usize;
         let n = buf.len();
+        assert!(offset as usize % HPAGE == 0 && n % HPAGE == 0, "harness device: unaligned read");
         assert!(offset as usize + n <= partition.size(), "harness device: read beyond partition");
-        let mem = unsafe { &*self.dev.mem.get() };
-        buf[..n].copy_from_slice(&mem[base..base + n]);
+        let first = self.base_pages[partition.id() as usize] + offset as usize / HPAGE;
+        let idx = self.reads.get();
+        self.reads.set(idx + 1);
+        let res = if self.fail_read_at == Some(idx) {
+            Err(foyer_common::error::Error::new(foyer_common::error::ErrorKind::Io, "harness: injected read error"))
+        } else {
+            let mut p = 0;
+            while p < n / HPAGE {
+                buf[p * HPAGE..(p + 1) * HPAGE].copy_from_slice(&self.dev.page(first + p)[..]);
+                p += 1;
+            }
+            Ok(())
+        };
         let fut: futures_core::future::BoxFuture<'static, (Box<dyn crate::io::bytes::IoB>, foyer_common::error::Result<()>)> =
-            Box::pin(std::future::ready((buf.into_iob(), Ok(()))));
+            Box::pin(std::future::ready((buf.into_iob(), res)));
         fut.into()
     }
     fn write(
@@ -88,11 +91,15 @@ impl<const BYTES: usize> crate::io::engine::IoEngine for MemIo<BYTES> {
         partition: &dyn crate::io::device::Partition,
         offset: u64,
     ) -> crate::io::engine::IoHandle {
-        let base = self.bases[partition.id() as usize] + offset as usize;
         let n = buf.len();
+        assert!(offset as usize % HPAGE == 0 && n % HPAGE == 0, "harness device: unaligned write");
         assert!(offset as usize + n <= partition.size(), "harness device: write beyond partition");
-        let mem = unsafe { &mut *self.dev.mem.get() };
-        mem[base..base + n].copy_from_slice(&buf[..n]);
+        let first = self.base_pages[partition.id() as usize] + offset as usize / HPAGE;
+        let mut p = 0;
+        while p < n / HPAGE {
+            self.dev.page(first + p).copy_from_slice(&buf[p * HPAGE..(p + 1) * HPAGE]);
+            p += 1;
+        }
         self.dev.writes.set(self.dev.writes.get() + 1);
         let fut: futures_core::future::BoxFuture<'static, (Box<dyn crate::io::bytes::IoB>, foyer_common::error::Result<()>)> =
             Box::pin(std::future::ready((buf.into_iob(), Ok(()))));
